@@ -158,6 +158,14 @@ def norm_model(kind, p, r):
         if a == "cbldm":
             b = r[0]
             return {"bins": b} if b is not None else {"bins": "placeholder"}
+        if a == "bc" and "ids" in p and isinstance(r, list):
+            # the model of bin completion works on values; the repaired code puts the names back by taking, for each
+            # value in each bin in order, the first unused name with that value (zero-valued items are dropped)
+            names_of = {}
+            for i, v in zip(p["ids"], p["vals"]):
+                if v != 0:
+                    names_of.setdefault(v, []).append(i)
+            r = [[s, [names_of[v].pop(0) for v in l]] for s, l in r]
         return {"bins": r}
     if kind == "cg_clock":
         return {"best": r[0], "ticks": r[1], "first": r[2]}
